@@ -162,3 +162,225 @@ def run(ctx):
             if ans != impl:
                 ctx.disagree("id3 file container", case, model=ans[:200], impl=impl[:200])
     return len(reqs)
+
+
+# ---------------------------------------------------------------------------------------------------------------------
+# C19 / C06 at the file-operation level: the FileM programs `saveM` / `deleteM` (Model/Container/Id3FileM.lean, driver
+# `id3f op=savem|deletem`) against ID3.save / mutagen.id3.delete on a fault-injecting, capacity-limited file object.
+
+def gen_layout(rng):
+    """a well-formed [ID3v2 tag?][audio >= 131 bytes][ID3v1 128 / legacy 124..127 / none] -> (bytes, description)"""
+    kind = rng.choice(["none", "none", "v24", "v24", "v23", "v22", "v24pad"])
+    if kind == "none":
+        tag = b""
+    else:
+        body = bytes(rng.randrange(256) for _ in range(rng.choice([0, 1, 11, 40])))
+        if kind == "v24pad":
+            body += b"\0" * rng.choice([10, 300, 1500])
+        tag = b"ID3" + bytes([{"v24": 4, "v24pad": 4, "v23": 3, "v22": 2}[kind], 0, 0]) + syncsafe(len(body)) + body
+    # audio without look-alike bytes near its end
+    audio = b"\xff\xfb\x90\x00" + bytes(rng.choice(b"\x55\xaa\x11\x22") for _ in range(rng.choice([127, 130, 200, 700])))
+    v1kind = rng.choice(["none", "none", "128", "128", "124", "126"])
+    v1 = b"" if v1kind == "none" else v1_block(rng, int(v1kind))
+    return tag + audio + v1, {"tag": kind, "tag_len": len(tag), "audio_len": len(audio), "tail": v1kind}
+
+
+def _classify(k, r):
+    if k == "ok":
+        return "ok"
+    if k == "hang":
+        return "hang"
+    return classify(r).replace(":", " ").replace("err ", "err:")
+
+
+def _set_buffers(mode):
+    """a small copy buffer substituted for the 1 MiB default of the _util functions (as harness/props/c19.py does)"""
+    from mutagen import _util
+    funcs = [getattr(_util, n) for n in ("resize_file", "move_bytes", "insert_bytes", "delete_bytes", "resize_bytes")]
+    if not hasattr(_set_buffers, "saved"):
+        _set_buffers.saved = [f.__defaults__ for f in funcs]
+    for f, d in zip(funcs, _set_buffers.saved):
+        if mode == "small" and d:
+            f.__defaults__ = tuple(257 if x == _util._DEFAULT_BUFFER_SIZE else x for x in d)
+        else:
+            f.__defaults__ = d
+
+
+def _same_log(model_log, impl_log):
+    # the model writes the relative seek(-4, 1) of the extended-header branch with its absolute target
+    return len(model_log) == len(impl_log) and all(a == b or (b.startswith("s-") and a.startswith("s")) for a, b in zip(model_log, impl_log))
+
+
+def repro_v1_append():
+    """the C19 defect of ID3.save, on the real code: the ID3v1 block is written AFTER the new ID3v2 tag is in place; when that
+    write has to lengthen the file and the device is full, save() raises MutagenError and the file is not what it was.
+    -> list of (description, raised, file_changed)"""
+    from fobj import FaultFile
+    from mutagen import id3 as I, MutagenError
+    out = []
+    audio = b"\xff\xfb\x90\x00" + b"\x55" * 200
+    tag = b"ID3\x04\x00\x00" + syncsafe(13) + b"\0" * 13
+    for desc, data, cap, kw in [
+            ("v1=2 (CREATE), no ID3v1 block: room for the tag, not for the block", audio, len(audio) + 23 + 127, {"v1": 2}),
+            ("default options, legacy 124-byte ID3v1 block: the rewritten block is 4 bytes longer", tag + audio + v1_block(None, 124),
+             len(tag + audio) + 124 + 3, {})]:
+        tags = I.ID3(); tags.add(I.TIT2(encoding=3, text=["x"]))
+        f = FaultFile(data, cap=cap, leak=5)
+        try:
+            tags.save(f, padding=lambda i: 0, **kw); raised = None
+        except MutagenError as e:
+            raised = "MutagenError"
+        out.append((desc, raised, f.getvalue() != data))
+    return out
+
+
+def run_faults(ctx, want=("cap", "io", "short")):
+    """generated layouts x (every remaining capacity 0..growth for small growths, a lattice otherwise; leak 0/5/all) x (an IOError
+    at every call index) x (short reads at every read index): the real ID3.save / delete on FaultFile vs the Lean programs under the
+    same environment — same outcome class, same bytes left, same sequence of file-object calls; and the C19/C06 statements
+    evaluated on the real outcome.  Returns the number of compared runs."""
+    import errno
+    from fobj import FaultFile
+    from mutagen import id3 as I, MutagenError
+    from mutagen.id3._tags import ID3SaveConfig
+    from mutagen.id3._id3v1 import MakeID3v1
+    rng = ctx.rng
+    jobs = []          # (driver line, impl status, impl bytes, impl log, case)
+    seen = set()
+
+    def violation(key, what, case, li):
+        # one report per (finding, layout): the capacities / call indices of one layout repeat the same finding
+        if (key, li) not in seen:
+            seen.add((key, li))
+            ctx.violation(key, what, case)
+    n_layouts = ctx.budget(60, 500)
+    texts = ["x", "Ünï ✓", "a" * 40, "b" * 300, "c" * 1200]
+    try:
+        for li in range(n_layouts):
+            wellformed = rng.random() < 0.75
+            if wellformed:
+                data, desc = gen_layout(rng)
+            else:
+                # any file: look-alike bytes, damaged / extended headers, APEv2 tails (the programs are total)
+                data, desc = gen_file(rng)
+                if desc["tag"] == "huge-size":
+                    continue        # header announcing more than the file holds: outside the model (`notImplemented`)
+            op = rng.choice(["save", "save", "save", "delete"])
+            bufmode = rng.choice(["default", "small", "small"])
+            B = 257 if bufmode == "small" else 1048576
+            _set_buffers(bufmode)
+            if op == "save":
+                vmaj = rng.choice([3, 4]); v1opt = rng.choice([0, 1, 1, 2])
+                pad = rng.choice(["0", "0", "keep", "default", "33"])
+                text = rng.choice(texts)
+                def mk():
+                    t = I.ID3()
+                    t.add(I.TIT2(encoding=3, text=[text]))
+                    return t
+                tags = mk()
+                frames = bytes(tags._write(ID3SaveConfig(vmaj, "/")))
+                v1blk = MakeID3v1(tags)
+                base = "id3f op=savem data=%s vmaj=%d frames=%s pad=%s v1opt=%d v1blk=%s B=%d" % (
+                    hx(data), vmaj, hx(frames), pad, v1opt, hx(v1blk), B)
+                def go(f):
+                    mk().save(f, v1=v1opt, v2_version=vmaj, padding=pad_arg(pad))
+                cdesc = dict(desc, op="save", vmaj=vmaj, v1opt=v1opt, pad=pad, frames_len=len(frames), buffers=bufmode)
+            else:
+                dv1, dv2 = rng.random() < 0.7, rng.random() < 0.8
+                base = "id3f op=deletem data=%s v1=%d v2=%d B=%d" % (hx(data), int(dv1), int(dv2), B)
+                def go(f):
+                    I.delete(f, dv1, dv2)
+                cdesc = dict(desc, op="delete", delete_v1=dv1, delete_v2=dv2, buffers=bufmode)
+            cdesc["data"] = hx(data) if len(data) < 1200 else "len=%d" % len(data)
+            ref = FaultFile(data)
+            k0, r0 = timed(lambda: go(ref), 20)
+            if k0 != "ok":
+                if wellformed:
+                    ctx.notes.append("id3file faults: reference %s failed: %r" % (op, r0))
+                continue
+            ncalls = ref.calls; ref_log = list(ref.log); ref_bytes = ref.getvalue()
+            peak = max(len(data), len(ref_bytes))
+            # peak size: the tag is enlarged first, an ID3v1 block removed at the very end
+            if op == "save" and len(ref_bytes) >= 10:
+                new_tag = (ref_bytes[6] << 21 | ref_bytes[7] << 14 | ref_bytes[8] << 7 | ref_bytes[9]) + 10
+                after_tag = new_tag + len(data) - desc["tag_len"]
+                peak = max(len(data), after_tag, len(ref_bytes))
+            growth = peak - len(data)
+            tail_len = int(desc["tail"]) if desc["tail"].isdigit() else 0
+            v1_grows = op == "save" and (v1opt == 2 or (v1opt == 1 and tail_len)) and tail_len < 128
+            plans = []
+            if "cap" in want and growth > 0:
+                vals = list(range(growth + 1)) if growth <= (160 if ctx.quick else 1500) else \
+                    sorted(set([0, 1, 2, growth // 2, growth - 129, growth - 128, growth - 127, growth - 4, growth - 3, growth - 1, growth]
+                               + [rng.randrange(growth) for _ in range(12 if ctx.quick else 100)]))
+                for r in vals:
+                    if r < 0:
+                        continue
+                    for leak in ((0,) if (r % 4 and ctx.quick) else (0, 5, 100000)):
+                        plans.append(("cap", r, leak))
+            if "io" in want:
+                idx = list(range(ncalls)) if ncalls <= (70 if ctx.quick else 400) else sorted(rng.sample(range(ncalls), 70 if ctx.quick else 400))
+                for i in idx:
+                    plans.append(("io", i, "enospc" if rng.random() < 0.15 else "io"))
+            if "short" in want:
+                for i, l in enumerate(ref_log):
+                    if l.startswith("r") and int(l[1:]) > 0:
+                        for k in sorted({0, 1, int(l[1:]) // 2, int(l[1:]) - 1}):
+                            if k < int(l[1:]):
+                                plans.append(("short", i, k))
+            for kind, a, b in plans:
+                if kind == "cap":
+                    f = FaultFile(data, cap=len(data) + a, leak=b); env = "cap=%d leak=%d" % (len(data) + a, b)
+                elif kind == "io":
+                    f = FaultFile(data, fail_at=a, errno_=(errno.ENOSPC if b == "enospc" else errno.EIO)); env = "fail=%d:%s" % (a, b)
+                else:
+                    f = FaultFile(data, short=(a, b)); env = "short=%d:%d" % (a, b)
+                k, r = timed(lambda: go(f), 20)
+                after = f.getvalue()
+                st = _classify(k, r)
+                case = dict(cdesc, fault=kind, at=a, arg=b, growth=growth, calls_in_clean_run=ncalls)
+                ctx.case(key=("id3file-faults", op, li, kind, a, b), nontrivial=(k != "ok" or after != ref_bytes or kind != "cap" or a < growth),
+                         modelled=True, sample=case if (li == 0 and kind == "cap" and a == 1 and b == 0) else None)
+                ctx.hist["id3file-faults:%s:%s:%s" % (op, kind, st)] += 1
+                jobs.append(("%s %s" % (base, env), st, after, list(f.log), case))
+                # ---- the properties on the real outcome
+                if k == "hang":
+                    violation("id3file:%s:hang" % op, "did not finish", case, li); continue
+                if k == "exc" and not isinstance(r, MutagenError):
+                    if isinstance(r, ValueError) and str(r).startswith("Can't "):
+                        key = "escape:ValueError:_util.py:verify_fileobj"
+                    else:
+                        key = "escape:%s:id3file:%s" % (type(r).__name__, op)
+                    if ctx.prop == "C06":
+                        violation(key, "%s escaped from ID3 %s (%s at %s): %s" % (type(r).__name__, op, kind, a, str(r)[:80]), case, li)
+                if kind == "cap":
+                    if k == "ok" and after != ref_bytes:
+                        violation("id3file:%s:differs-from-unlimited" % op, "returned normally on a limited device with a different file", case, li)
+                    if a >= growth and k != "ok" and wellformed:
+                        violation("id3file:%s:fails-with-enough-space" % op, "failed although the peak size fits", case, li)
+                    if k == "exc" and ctx.prop != "C06" and wellformed:
+                        if after != data:
+                            audio = data[desc["tag_len"]:len(data) - tail_len]
+                            if v1_grows and after[:new_tag] == ref_bytes[:new_tag] and after[new_tag:new_tag + len(audio)] == audio:
+                                # the ID3v1 block is written after the tag has been replaced (Props/C19_Id3File.lean, outcome 3)
+                                # the property's "remaining cases": a block appended at the end of the file - the audio payload is
+                                # intact (checked in the condition above); not a violation, counted
+                                ctx.hist["id3file:enospc:id3v1-appended-after-tag:payload-intact"] += 1
+                            else:
+                                violation("MP3:file-modified-on-enospc", "file changed although save failed", case, li)
+                elif k == "ok" and kind == "io":
+                    if after != ref_bytes:
+                        violation("undetected:io:id3file:%s" % op, "returned normally after an injected IOError with a different file", case, li)
+    finally:
+        _set_buffers("default")
+    if ctx.model_ok() and jobs:
+        answers = ctx.driver.ask([j[0] for j in jobs])
+        for (line, st, after, log, case), ans in zip(jobs, answers):
+            ctx.traces_validated += 1
+            mst, mf = parse_fields(ans)
+            mlog = [] if mf.get("log", "-") == "-" else mf["log"].split(",")
+            if mst != st or mf.get("data") != hx(after):
+                ctx.disagree("id3 file programs under faults", case, model=ans[:200], impl="%s data=%s" % (st, hx(after)[:160]))
+            elif not _same_log(mlog, log):
+                ctx.disagree("id3 file programs: sequence of file-object calls", case, model=",".join(mlog)[:300], impl=",".join(log)[:300])
+    return len(jobs)
